@@ -229,8 +229,12 @@ func run(c *runner.Ctx) {
 	// an empty value written as a bare key (no '=') behind parameters that do have values
 	emptyV := func(v reflect.Value) bool { return v.Kind() == reflect.String && v.String() == "" }
 	cars = append(cars,
-		carrierFn{"url-bare-key-middle", emptyV, func(v reflect.Value, rl string) error { return valid.Url("http://h/p?a=12345&k&z=zz", valid.RM{"k": rl}) }},
-		carrierFn{"url-bare-key-last", emptyV, func(v reflect.Value, rl string) error { return valid.Url("http://h/p?a=12345&z=2021-09-28&k", valid.RM{"k": rl}) }},
+		carrierFn{"url-bare-key-middle", emptyV, func(v reflect.Value, rl string) error {
+			return valid.Url("http://h/p?a=12345&k&z=zz", valid.RM{"k": rl})
+		}},
+		carrierFn{"url-bare-key-last", emptyV, func(v reflect.Value, rl string) error {
+			return valid.Url("http://h/p?a=12345&z=2021-09-28&k", valid.RM{"k": rl})
+		}},
 		carrierFn{"url-bare-key-escaped", emptyV, func(v reflect.Value, rl string) error {
 			return valid.Url(url.QueryEscape("http://h/p?a=13800138000&k&z=1"), valid.RM{"k": rl})
 		}})
